@@ -2,7 +2,8 @@
 # setup_cmd: build the tools, generate the transformed go-lifecycle copy, warm the build cache.
 set -euo pipefail
 export GOFLAGS=-mod=mod GOPROXY=off GOSUMDB=off GOTOOLCHAIN=local
-V=/verif
+V=$(dirname "$(readlink -f "$0")")
+export VERIF_DIR=$V
 cd $V
 mkdir -p bin gen evidence replays
 (cd tools/chanxform && go build -o $V/bin/chanxform .)
